@@ -179,7 +179,7 @@ class ObjectField:
 
     @property
     def skip(self) -> SkipMetadata:
-        return self.metadata.get(SKIP_METADATA, SkipMetadata())
+        return self.full_metadata.get(SKIP_METADATA, SkipMetadata())
 
     def skippable(self, default: bool, none: bool) -> bool:
         return bool(
